@@ -273,6 +273,10 @@ func SSHAuthorizedKeys(info Info, data []byte) (Info, error) {
 	lines := bytes.Split(data, []byte("\n"))
 	var keys []Info
 	for _, l := range lines {
+		// blank lines, comments and the empty "line" after a final newline are not entries
+		if t := bytes.TrimSpace(l); len(t) == 0 || t[0] == '#' {
+			continue
+		}
 		pub, comment, _, _, err := ssh.ParseAuthorizedKey(l)
 		if err != nil {
 			return info, fmt.Errorf("ssh.ParseAuthorizedKey: %w", err)
@@ -291,7 +295,7 @@ func SSHKnownHosts(info Info, data []byte) (Info, error) {
 	lines := bytes.Split(data, []byte("\n"))
 	var keys []Info
 	for _, l := range lines {
-		if len(bytes.TrimSpace(l)) == 0 {
+		if t := bytes.TrimSpace(l); len(t) == 0 || t[0] == '#' {
 			continue
 		}
 		_, hosts, pub, comment, _, err := ssh.ParseKnownHosts(l)
